@@ -105,7 +105,15 @@ func execCase(c core.Case) []string {
 					break
 				}
 			}
-			cd, err := buildChain(a["txs"], txs, int64(ih))
+			eh := false
+			if s, has := a["emptyhash"]; has {
+				if s != "0" && s != "1" {
+					out = append(out, "bad-op")
+					break
+				}
+				eh = s == "1"
+			}
+			cd, err := buildChain(a["txs"], txs, int64(ih), eh)
 			if err != nil {
 				out = append(out, "chain-error:"+trunc(err.Error(), 200))
 				break
@@ -725,7 +733,11 @@ func gen(r *rand.Rand, tier string, emit func(core.Case)) {
 	// (a1) every crash prefix of finalizeCommit at a chosen height × a crash prefix of the recovery
 	for i := 0; i < 600*scale; i++ {
 		n := 2 + r.Intn(3)
-		ops := []string{genChain(r, n), "start crash=-"}
+		ch := genChain(r, n)
+		if r.Intn(4) == 0 {
+			ch += " emptyhash=1" // an application whose app hash is zero-length at every height
+		}
+		ops := []string{ch, "start crash=-"}
 		target := 1 + r.Intn(n)
 		for h := 1; h < target; h++ {
 			ops = append(ops, "commit crash=-")
@@ -784,6 +796,12 @@ func gen(r *rand.Rand, tier string, emit func(core.Case)) {
 	for j := 1; j <= 3; j++ { // the genesis state's save (handshake on an empty node)
 		emit(core.Case{Kind: "pipe-midwrite", Ops: []string{"chain n=5 txs=1,2,3,e,4", fmt.Sprintf("start crash=1 mid=%d", j),
 			"start crash=-", "commit crash=-", "commit crash=-", "commit crash=-", "commit crash=-", "check"}})
+	}
+	// (a1-eh) empty app hash: plain restarts (no crash) at every height, then a crash and recovery
+	for _, ih := range []string{"", " ih=4"} {
+		ops := []string{"chain n=4 txs=1,e,2.3,4 emptyhash=1" + ih, "start crash=-", "start crash=-", "commit crash=-", "start crash=-",
+			"commit crash=-", "start crash=-", "commit crash=9", "start crash=-", "start crash=-", "commit crash=-", "check"}
+		emit(core.Case{Kind: "pipe-emptyhash", Ops: ops})
 	}
 	// (a1-ih) first block of a chain with InitialHeight > 1: every crash prefix, then a crash prefix of the recovery
 	for _, ih := range []int{2, 7} {
